@@ -85,6 +85,8 @@ fn gen_generate_valid_inner_value(maybe_spec: &Option<Specification>) -> TokenSt
 #[derive(Kinded)]
 enum RelevantSanitizer {
     Trim,
+    Lowercase,
+    Uppercase,
 }
 
 /// Subset of StringValidator, which is is possible to handle and is relevant for generating
@@ -98,6 +100,8 @@ enum RelevantValidator {
 /// Final specification to generate an arbitrary valid string
 struct Specification {
     has_trim: bool,
+    has_lowercase: bool,
+    has_uppercase: bool,
     min_len: ValueOrExpr<usize>,
     max_len: ValueOrExpr<usize>,
 }
@@ -143,8 +147,17 @@ fn build_specification(guard: &StringGuard) -> Result<Option<Specification>, syn
                 })
                 .unwrap_or_else(|| min_len.clone() + DEFAULT_LEN_OFFSET);
 
+            let has_lowercase = relevant_sanitizers
+                .iter()
+                .any(|s| matches!(s, RelevantSanitizer::Lowercase));
+            let has_uppercase = relevant_sanitizers
+                .iter()
+                .any(|s| matches!(s, RelevantSanitizer::Uppercase));
+
             let spec = Specification {
                 has_trim,
+                has_lowercase,
+                has_uppercase,
                 min_len,
                 max_len,
             };
@@ -201,10 +214,11 @@ fn filter_sanitizers(sanitizers: &[StringSanitizer]) -> Result<Vec<RelevantSanit
             // Trim is relevant, because trimming a space can decrease string length and cause
             // violation of len_char_min validation.
             StringSanitizer::Trim => Some(Ok(RelevantSanitizer::Trim)),
-            // lowercase and uppercase sanitizers do not overlap with any of the validation rules,
-            // so we can ignore them
-            StringSanitizer::Lowercase => None,
-            StringSanitizer::Uppercase => None,
+            // lowercase and uppercase are relevant, because converting the case of a single
+            // character may produce multiple characters (e.g. 'ß' -> "SS") and cause violation of
+            // len_char_max validation.
+            StringSanitizer::Lowercase => Some(Ok(RelevantSanitizer::Lowercase)),
+            StringSanitizer::Uppercase => Some(Ok(RelevantSanitizer::Uppercase)),
             StringSanitizer::With(_) => {
                 let msg = "It's not possible to derive `Arbitrary` trait for a type with `with` sanitizer.\nYou have to implement `Arbitrary` trait on you own.";
                 Some(Err(syn::Error::new(Span::call_site(), msg)))
@@ -216,9 +230,27 @@ fn filter_sanitizers(sanitizers: &[StringSanitizer]) -> Result<Vec<RelevantSanit
 fn gen_generate_valid_inner_value_with_validators(spec: &Specification) -> TokenStream {
     let Specification {
         has_trim,
+        has_lowercase,
+        has_uppercase,
         min_len,
         max_len,
     } = spec;
+
+    // Avoid characters that turn into multiple characters when their case is converted,
+    // otherwise the sanitized string may end up longer than the target length.
+    let gen_char = if *has_lowercase {
+        quote!({
+            let ch: char = u.arbitrary()?;
+            if ch.to_lowercase().count() == 1 { ch } else { 'a' }
+        })
+    } else if *has_uppercase {
+        quote!({
+            let ch: char = u.arbitrary()?;
+            if ch.to_uppercase().count() == 1 { ch } else { 'A' }
+        })
+    } else {
+        quote!(u.arbitrary()?)
+    };
 
     if *has_trim {
         quote!(
@@ -227,7 +259,7 @@ fn gen_generate_valid_inner_value_with_validators(spec: &Specification) -> Token
             // Generate string `output` that matches the target_len
             let mut output = String::with_capacity(target_len * 2);
             for _ in 0..target_len {
-                let ch: char = u.arbitrary()?;
+                let ch: char = #gen_char;
                 output.push(ch);
             }
             // Make sure that the generated string matches the target_len
@@ -243,7 +275,7 @@ fn gen_generate_valid_inner_value_with_validators(spec: &Specification) -> Token
                         // Try luck one more time: trim the spaces and add another char.
                         // NOTE: This is inefficient, but it's not expected to happen often.
                         output = output.trim().to_string();
-                        let new_char: char = u.arbitrary()?;
+                        let new_char: char = #gen_char;
                         output.push(new_char);
                     }
                     core::cmp::Ordering::Greater => {
@@ -263,7 +295,7 @@ fn gen_generate_valid_inner_value_with_validators(spec: &Specification) -> Token
             // Generate string `output` that matches the target_len
             let mut output = String::with_capacity(target_len * 2);
             for _ in 0..target_len {
-                let ch: char = u.arbitrary()?;
+                let ch: char = #gen_char;
                 output.push(ch);
             }
             // Return the output string
